@@ -12,7 +12,7 @@ SPECDIRS = ("c10",)
 
 ALLOPS = '{"=", "<", "<=", ">", ">="}'
 OPS3 = '{"=", "<=", ">"}'          # with both sides these are all five effective bounds
-ALLFORMS = '{"int", "rfc", "dt", "date", "dur", "now"}'
+ALLFORMS = '{"int", "rfc", "dt", "date", "dur", "now", "intm", "intp", "rfcm", "rfcp"}'
 
 
 def cfg(ctx, edge=False, maxatoms=2, minemit=1, maxt=4, bases="{2, 3}", offn=1, ops=ALLOPS, sides='{"L", "R"}',
